@@ -117,7 +117,11 @@ def gen_file(rng, tier, i, mode):
                 for t in s["tokens"]:
                     if rng.random() < 0.4:
                         t[1] = "EMPTY"
-    if rng.random() < 0.3 and "brackets_emptypos" not in opts and mode == "clean":
+                        if rng.random() < 0.3:
+                            # a word without tag that looks like a decorated label
+                            t[0] = rng.choice(["a-b", "e-mail", "x-1", "-", "a-b-c", "NP-SBJ",
+                                               "y=2", "z'"])
+    if rng.random() < 0.3 and mode == "clean":
         opts["gf_split"] = True
         sep = "-"
         if rng.random() < 0.3:
